@@ -86,7 +86,7 @@ def check_match(ctx, case, doc, m, cls_cell):
     ctx.cell(cls_cell, "pointer")
     text = str(ptr.value)
     kw = {"unicode_escape": False} if "\\" in text else {}
-    if any(isinstance(p, str) and re.fullmatch(r"-?[0-9]{16,}", p) for p in parts):
+    if any(gen.over_limit(p) for p in parts):
         # integers beyond the index limit are rejected when pointer text is parsed: a
         # documented (and unit-tested) extension, outside the re-parse clause as in C04
         ctx.count("reparse_skipped_over_limit_integer_name")
